@@ -98,8 +98,38 @@ def global_writes(tree, modname):
         for g in declared_global:
             out.append(f"{modname}.{qual}: global {g}")
 
-        def is_outliving(name):
+        def is_outliving0(name):
             return (name in glob and name not in local) or name in mutable_defaults or name in declared_global
+
+        # local names bound to (parts of) objects that outlive the call:  x = GLOBAL / x = GLOBAL[k] / x = cls.attr / x = type(self).attr
+        aliases = set()
+
+        def rooted_outliving(v):
+            base = v
+            while isinstance(base, (ast.Subscript, ast.Attribute)):
+                if isinstance(base, ast.Attribute) and ast.unparse(base.value) in ("self.__class__", "type(self)", "cls"):
+                    return True
+                base = base.value
+            if isinstance(base, ast.Call) and isinstance(base.func, ast.Attribute) and base.func.attr in ("get", "setdefault"):
+                return rooted_outliving(base.func.value)
+            return isinstance(base, ast.Name) and (is_outliving0(base.id) or base.id in aliases or base.id in classes or base.id == "cls") \
+                and not (isinstance(v, ast.Name) and v.id in classes)
+        changed = True
+        while changed:
+            changed = False
+            for n in ast.walk(fn):
+                if isinstance(n, ast.Assign) and rooted_outliving(n.value):
+                    for t in n.targets:
+                        if isinstance(t, ast.Name) and t.id not in aliases and t.id in local and t.id not in params:
+                            aliases.add(t.id)
+                            changed = True
+                elif isinstance(n, ast.AnnAssign) and n.value is not None and rooted_outliving(n.value):
+                    if isinstance(n.target, ast.Name) and n.target.id not in aliases and n.target.id in local:
+                        aliases.add(n.target.id)
+                        changed = True
+
+        def is_outliving(name):
+            return is_outliving0(name) or name in aliases
 
         for n in ast.walk(fn):
             tg = []
